@@ -352,3 +352,24 @@ func VerifC18DropArrays() {
 	}
 	nd.Reach("C18.droparrays")
 }
+
+// VerifC18NestedDropIndex: a Drop nested inside a map or an array (where lookup reaches it, rather
+// than the top-level unwrapping) that stands for an array or a map is subscripted, measured and
+// looked into exactly as that array or map.
+func VerifC18NestedDropIndex() {
+	x, y := nd.IntIn(0, 9), nd.IntIn(0, 9)
+	i := nd.IntIn(-3, 2)
+	t := []string{
+		"{{ m.d[0] }}{{ m.d[1] }}{{ m.d[i] }}|{{ m.d['size'] }}|{{ m.d.size }}{{ m.d.first }}{{ m.d.last }}",
+		"{{ a[0][1] }}{{ a[0][i] }}{{ a.first[0] }}|{{ a[0] | join: ',' }}|{{ a[0].size }}",
+		"{{ m.e.k }}{{ m.e['k'] }}{{ m.e[kk] }}|{{ m.e.size }}|{% if m.e contains 'k' %}has{% endif %}{% if m.d contains x %}in{% endif %}",
+		"{% for v in m.d %}{{ v }};{% endfor %}{% for v in a[0] limit: 1 %}{{ v }}{% endfor %}",
+	}[nd.Choice(4)]
+	plain := Bindings{"m": map[string]any{"d": []any{x, y}, "e": map[string]any{"k": y}}, "a": []any{[]any{x, y}}, "i": i, "x": x, "kk": "k"}
+	drops := Bindings{"m": map[string]any{"d": c18Drop{[]any{x, y}}, "e": c18Drop{map[string]any{"k": y}}}, "a": []any{c18Drop{[]any{x, y}}}, "i": i, "x": x, "kk": "k"}
+	o1, e1 := vRender(t, plain)
+	o2, e2 := vRender(t, drops)
+	nd.Assert(e1 == nil && e2 == nil, "nested-drop-index-no-error")
+	nd.Assert(o1 == o2, "nested-drop-index-same-output")
+	nd.Reach("C18.nesteddropindex")
+}
